@@ -34,39 +34,30 @@ Import ListNotations.
 Local Open Scope N_scope.
 
 (* ---- the regenerated tables are the standards' tables ---- *)
-Theorem C01_repo_sha256_tables :
-  sha256_Krnd = K256 /\ sha256_initial_state = H0_256 /\ sha256_PAD = 128 :: repeat 0 63.
-Proof. exact (conj repo_sha256_Krnd_eq_spec (conj repo_sha256_iv_eq_spec repo_sha256_PAD_eq_spec)). Qed.
-Print Assumptions C01_repo_sha256_tables.
-
-Theorem C01_repo_sha1_tables :
-  sha1_iv = H0_1 /\ sha1_kinds = sha1_kinds_spec /\ sha1_rounds = sha1_rounds_spec.
-Proof. exact (conj repo_sha1_iv_eq_spec (conj repo_sha1_kinds_eq_spec repo_sha1_rounds_eq_spec)). Qed.
-Print Assumptions C01_repo_sha1_tables.
-
-Theorem C01_repo_md5_tables :
-  md5_iv = IV_md5 /\ md5_index_formulas = md5_formulas_spec /\ md5_ops = md5_ops_spec.
-Proof. exact (conj repo_md5_iv_eq_spec (conj repo_md5_formulas_eq_spec repo_md5_ops_eq_spec)). Qed.
-Print Assumptions C01_repo_md5_tables.
+Theorem C01_repo_hash_tables_are_the_standards :
+  (sha256_Krnd = K256 /\ sha256_initial_state = H0_256 /\ sha256_PAD = 128 :: repeat 0 63) /\
+  (sha1_iv = H0_1 /\ sha1_kinds = sha1_kinds_spec /\ sha1_rounds = sha1_rounds_spec) /\
+  (md5_iv = IV_md5 /\ md5_index_formulas = md5_formulas_spec /\ md5_ops = md5_ops_spec).
+Proof.
+  exact (conj (conj repo_sha256_Krnd_eq_spec (conj repo_sha256_iv_eq_spec repo_sha256_PAD_eq_spec))
+        (conj (conj repo_sha1_iv_eq_spec (conj repo_sha1_kinds_eq_spec repo_sha1_rounds_eq_spec))
+              (conj repo_md5_iv_eq_spec (conj repo_md5_formulas_eq_spec repo_md5_ops_eq_spec)))).
+Qed.
+Print Assumptions C01_repo_hash_tables_are_the_standards.
 
 (* ---- M1: the C block transforms are the standards' compression functions ---- *)
-Theorem C01_sha256_transform_is_fips_compress :
-  forall st block, length st = 8%nat -> length block = 64%nat ->
-  sha256_transform st block = f256_compress st block.
-Proof. exact repo_sha256_transform_is_compress. Qed.
-Print Assumptions C01_sha256_transform_is_fips_compress.
-
-Theorem C01_sha1_transform_is_fips_compress :
-  forall st block, length st = 5%nat -> length block = 64%nat ->
-  sha1_transform st block = f1_compress st block.
-Proof. exact repo_sha1_transform_is_compress. Qed.
-Print Assumptions C01_sha1_transform_is_fips_compress.
-
-Theorem C01_md5_transform_is_rfc_compress :
-  forall st block, length st = 4%nat -> length block = 64%nat ->
-  md5_transform st block = r5_compress st block.
-Proof. exact repo_md5_transform_is_compress. Qed.
-Print Assumptions C01_md5_transform_is_rfc_compress.
+Theorem C01_transforms_are_the_standards_compression_functions :
+  (forall st block, length st = 8%nat -> length block = 64%nat ->
+     sha256_transform st block = f256_compress st block) /\
+  (forall st block, length st = 5%nat -> length block = 64%nat ->
+     sha1_transform st block = f1_compress st block) /\
+  (forall st block, length st = 4%nat -> length block = 64%nat ->
+     md5_transform st block = r5_compress st block).
+Proof.
+  exact (conj repo_sha256_transform_is_compress
+        (conj repo_sha1_transform_is_compress repo_md5_transform_is_compress)).
+Qed.
+Print Assumptions C01_transforms_are_the_standards_compression_functions.
 
 (* ---- M3: Init / Update* / Final over ANY partition = the standard on the whole message ---- *)
 Theorem C01_sha256_streaming_correct :
@@ -75,22 +66,16 @@ Theorem C01_sha256_streaming_correct :
 Proof. exact repo_sha256_streaming. Qed.
 Print Assumptions C01_sha256_streaming_correct.
 
-(* the same without the length guard (length field = bit length mod 2^64) *)
-Theorem C01_sha256_streaming_correct_all_lengths :
-  forall parts,
-  fst (sha256_final (fold_left sha256_update parts sha256_init)) = SHA256_spec (concat parts).
-Proof. exact repo_sha256_streaming_all. Qed.
-Print Assumptions C01_sha256_streaming_correct_all_lengths.
-
-Theorem C01_sha256_oneshot_correct : forall m, sha256_buf m = SHA256_spec m.
-Proof. exact repo_sha256_oneshot. Qed.
-Print Assumptions C01_sha256_oneshot_correct.
-
-Theorem C01_sha256_oneshot_eq_streaming :
-  forall parts,
-  sha256_buf (concat parts) = fst (sha256_final (fold_left sha256_update parts sha256_init)).
-Proof. exact repo_sha256_oneshot_eq_streaming. Qed.
-Print Assumptions C01_sha256_oneshot_eq_streaming.
+(* the same without the length guard (length field = bit length mod 2^64); one-shot = standard;
+   one-shot = streaming *)
+Theorem C01_sha256_correct_all_lengths :
+  (forall parts,
+     fst (sha256_final (fold_left sha256_update parts sha256_init)) = SHA256_spec (concat parts)) /\
+  (forall m, sha256_buf m = SHA256_spec m) /\
+  (forall parts,
+     sha256_buf (concat parts) = fst (sha256_final (fold_left sha256_update parts sha256_init))).
+Proof. exact (conj repo_sha256_streaming_all (conj repo_sha256_oneshot repo_sha256_oneshot_eq_streaming)). Qed.
+Print Assumptions C01_sha256_correct_all_lengths.
 
 Theorem C01_sha1_streaming_correct :
   forall parts, 8 * N.of_nat (length (concat parts)) < 18446744073709551616 ->
@@ -98,100 +83,71 @@ Theorem C01_sha1_streaming_correct :
 Proof. exact repo_sha1_streaming. Qed.
 Print Assumptions C01_sha1_streaming_correct.
 
-Theorem C01_sha1_streaming_correct_all_lengths :
-  forall parts,
-  fst (sha1_final (fold_left sha1_update parts sha1_init)) = SHA1_spec (concat parts).
-Proof. exact repo_sha1_streaming_all. Qed.
-Print Assumptions C01_sha1_streaming_correct_all_lengths.
-
-Theorem C01_sha1_oneshot_correct : forall m, sha1_buf m = SHA1_spec m.
-Proof. exact repo_sha1_oneshot. Qed.
-Print Assumptions C01_sha1_oneshot_correct.
-
-Theorem C01_sha1_oneshot_eq_streaming :
-  forall parts, sha1_buf (concat parts) = fst (sha1_final (fold_left sha1_update parts sha1_init)).
-Proof. exact repo_sha1_oneshot_eq_streaming. Qed.
-Print Assumptions C01_sha1_oneshot_eq_streaming.
+Theorem C01_sha1_correct_all_lengths :
+  (forall parts,
+     fst (sha1_final (fold_left sha1_update parts sha1_init)) = SHA1_spec (concat parts)) /\
+  (forall m, sha1_buf m = SHA1_spec m) /\
+  (forall parts,
+     sha1_buf (concat parts) = fst (sha1_final (fold_left sha1_update parts sha1_init))).
+Proof. exact (conj repo_sha1_streaming_all (conj repo_sha1_oneshot repo_sha1_oneshot_eq_streaming)). Qed.
+Print Assumptions C01_sha1_correct_all_lengths.
 
 (* RFC 1321 3.2 itself takes the low-order 64 bits of the length: no guard *)
-Theorem C01_md5_streaming_correct :
-  forall parts,
-  fst (md5_final (fold_left md5_update parts md5_init)) = MD5_spec (concat parts).
-Proof. exact repo_md5_streaming. Qed.
-Print Assumptions C01_md5_streaming_correct.
-
-Theorem C01_md5_oneshot_correct : forall m, md5_buf m = MD5_spec m.
-Proof. exact repo_md5_oneshot. Qed.
-Print Assumptions C01_md5_oneshot_correct.
-
-Theorem C01_md5_oneshot_eq_streaming :
-  forall parts, md5_buf (concat parts) = fst (md5_final (fold_left md5_update parts md5_init)).
-Proof. exact repo_md5_oneshot_eq_streaming. Qed.
-Print Assumptions C01_md5_oneshot_eq_streaming.
+Theorem C01_md5_correct :
+  (forall parts,
+     fst (md5_final (fold_left md5_update parts md5_init)) = MD5_spec (concat parts)) /\
+  (forall m, md5_buf m = MD5_spec m) /\
+  (forall parts,
+     md5_buf (concat parts) = fst (md5_final (fold_left md5_update parts md5_init))).
+Proof. exact (conj repo_md5_streaming (conj repo_md5_oneshot repo_md5_oneshot_eq_streaming)). Qed.
+Print Assumptions C01_md5_correct.
 
 (* ---- streaming from ANY well-formed context (state, bit count, buffer): the digest is the
         standard's padding and compression continued from there.  Covers the carry between the two
         count words of SHA-1 / MD5 and the wrap of the bit count at 2^64. ---- *)
-Theorem C01_sha256_resume_correct :
-  forall c parts, wf256 c ->
-  fst (sha256_final (fold_left sha256_update parts c)) =
-  SHA256_resume_spec (c256_state c) (c256_count c) (c256_buf c) (concat parts).
-Proof. exact repo_sha256_resume. Qed.
-Print Assumptions C01_sha256_resume_correct.
+Theorem C01_resume_from_any_context_correct :
+  (forall c parts, wf256 c ->
+     fst (sha256_final (fold_left sha256_update parts c)) =
+     SHA256_resume_spec (c256_state c) (c256_count c) (c256_buf c) (concat parts)) /\
+  (forall c parts, wf32 5 true c ->
+     fst (sha1_final (fold_left sha1_update parts c)) =
+     SHA1_resume_spec (c32_state c) (c32_count0 c * 4294967296 + c32_count1 c) (c32_buf c) (concat parts)) /\
+  (forall c parts, wf32 4 false c ->
+     fst (md5_final (fold_left md5_update parts c)) =
+     MD5_resume_spec (c32_state c) (c32_count1 c * 4294967296 + c32_count0 c) (c32_buf c) (concat parts)).
+Proof. exact (conj repo_sha256_resume (conj repo_sha1_resume repo_md5_resume)). Qed.
+Print Assumptions C01_resume_from_any_context_correct.
 
-Theorem C01_sha1_resume_correct :
-  forall c parts, wf32 5 true c ->
-  fst (sha1_final (fold_left sha1_update parts c)) =
-  SHA1_resume_spec (c32_state c) (c32_count0 c * 4294967296 + c32_count1 c) (c32_buf c) (concat parts).
-Proof. exact repo_sha1_resume. Qed.
-Print Assumptions C01_sha1_resume_correct.
-
-Theorem C01_md5_resume_correct :
-  forall c parts, wf32 4 false c ->
-  fst (md5_final (fold_left md5_update parts c)) =
-  MD5_resume_spec (c32_state c) (c32_count1 c * 4294967296 + c32_count0 c) (c32_buf c) (concat parts).
-Proof. exact repo_md5_resume. Qed.
-Print Assumptions C01_md5_resume_correct.
-
-(* ---- M4: HMAC, every key length (both sides of 64, hashed-key branch), every partition ---- *)
+(* ---- M4: HMAC, every key length (both sides of 64, hashed-key branch), every partition;
+        one-shot = RFC 2104; one-shot = streaming ---- *)
 Theorem C01_hmac_sha256_correct :
-  forall K parts,
-  fst (hmac256_final (fold_left hmac256_update parts (hmac256_init K))) =
-  HMAC_SHA256_spec K (concat parts).
-Proof. exact repo_hmac_sha256_correct. Qed.
+  (forall K parts,
+     fst (hmac256_final (fold_left hmac256_update parts (hmac256_init K))) =
+     HMAC_SHA256_spec K (concat parts)) /\
+  (forall K m, hmac256_buf K m = HMAC_SHA256_spec K m) /\
+  (forall K parts,
+     hmac256_buf K (concat parts) =
+     fst (hmac256_final (fold_left hmac256_update parts (hmac256_init K)))).
+Proof.
+  exact (conj repo_hmac_sha256_correct (conj repo_hmac_sha256_buf repo_hmac_sha256_buf_eq_streaming)).
+Qed.
 Print Assumptions C01_hmac_sha256_correct.
 
-Theorem C01_hmac_sha256_oneshot_correct : forall K m, hmac256_buf K m = HMAC_SHA256_spec K m.
-Proof. exact repo_hmac_sha256_buf. Qed.
-Print Assumptions C01_hmac_sha256_oneshot_correct.
-
-Theorem C01_hmac_sha256_oneshot_eq_streaming :
-  forall K parts,
-  hmac256_buf K (concat parts) = fst (hmac256_final (fold_left hmac256_update parts (hmac256_init K))).
-Proof. exact repo_hmac_sha256_buf_eq_streaming. Qed.
-Print Assumptions C01_hmac_sha256_oneshot_eq_streaming.
-
 Theorem C01_hmac_sha1_correct :
-  forall K parts,
-  fst (hmacsha1_final (fold_left hmacsha1_update parts (hmacsha1_init K))) =
-  HMAC_SHA1_spec K (concat parts).
-Proof. exact repo_hmac_sha1_correct. Qed.
+  (forall K parts,
+     fst (hmacsha1_final (fold_left hmacsha1_update parts (hmacsha1_init K))) =
+     HMAC_SHA1_spec K (concat parts)) /\
+  (forall K m, hmacsha1_buf K m = HMAC_SHA1_spec K m).
+Proof. exact (conj repo_hmac_sha1_correct repo_hmac_sha1_buf). Qed.
 Print Assumptions C01_hmac_sha1_correct.
 
-Theorem C01_hmac_sha1_oneshot_correct : forall K m, hmacsha1_buf K m = HMAC_SHA1_spec K m.
-Proof. exact repo_hmac_sha1_buf. Qed.
-Print Assumptions C01_hmac_sha1_oneshot_correct.
-
 Theorem C01_hmac_md5_correct :
-  forall K parts,
-  fst (hmacmd5_final (fold_left hmacmd5_update parts (hmacmd5_init K))) =
-  HMAC_MD5_spec K (concat parts).
-Proof. exact repo_hmac_md5_correct. Qed.
+  (forall K parts,
+     fst (hmacmd5_final (fold_left hmacmd5_update parts (hmacmd5_init K))) =
+     HMAC_MD5_spec K (concat parts)) /\
+  (forall K m, hmacmd5_buf K m = HMAC_MD5_spec K m).
+Proof. exact (conj repo_hmac_md5_correct repo_hmac_md5_buf). Qed.
 Print Assumptions C01_hmac_md5_correct.
-
-Theorem C01_hmac_md5_oneshot_correct : forall K m, hmacmd5_buf K m = HMAC_MD5_spec K m.
-Proof. exact repo_hmac_md5_buf. Qed.
-Print Assumptions C01_hmac_md5_oneshot_correct.
 
 (* ---- M5: PBKDF2-HMAC-SHA256 = RFC 8018 PBKDF2 over the RFC 2104 HMAC over FIPS SHA-256 ---- *)
 Theorem C01_pbkdf2_correct :
